@@ -101,10 +101,10 @@ def slabs0 (w dx dy : K) : K × K × K := (dx, dx / 2 + w / 2 * dy, dx / 2 - w /
 def slabs (rot90 : Bool) (w dx dy : K) : K × K × K := if rot90 then slabs90 w dx dy else slabs0 w dx dy
 
 /-- closed regular hexagon with apothem `a` centred at `(cx, cy)`: the intersection of three slabs -/
-def inSlabs [LE K] (a : K) (t : K × K × K) : Prop :=
+@[reducible] def inSlabs [LE K] (a : K) (t : K × K × K) : Prop :=
   (-a ≤ t.1 ∧ t.1 ≤ a) ∧ (-a ≤ t.2.1 ∧ t.2.1 ≤ a) ∧ (-a ≤ t.2.2 ∧ t.2.2 ≤ a)
 
-def inHex [LE K] (rot90 : Bool) (w a cx cy px py : K) : Prop := inSlabs a (slabs rot90 w (px - cx) (py - cy))
+@[reducible] def inHex [LE K] (rot90 : Bool) (w a cx cy px py : K) : Prop := inSlabs a (slabs rot90 w (px - cx) (py - cy))
 
 /-! ## composition of per-segment OPD -/
 
@@ -134,15 +134,15 @@ end scalar
 section prims
 variable {K : Type} [LE K] [LT K] [Add K] [Sub K] [Mul K] [Div K] [Neg K] [OfNat K 0] [OfNat K 1] [OfNat K 2]
 
-def circle (radius r : K) : Prop := r ≤ radius
-def annulus (rin rout r : K) : Prop := r ≥ rin ∧ r ≤ rout
+@[reducible] def circle (radius r : K) : Prop := r ≤ radius
+@[reducible] def annulus (rin rout r : K) : Prop := r ≥ rin ∧ r ≤ rout
 /-- `rectangle(width, x, y, height, angle=0)`: half-widths -/
-def rectangle (width height x y : K) : Prop := (y ≤ height ∧ y ≥ -height) ∧ (x ≤ width ∧ x ≥ -width)
+@[reducible] def rectangle (width height x y : K) : Prop := (y ≤ height ∧ y ≥ -height) ∧ (x ≤ width ∧ x ≥ -width)
 /-- `rotated_ellipse`: `(c, s) = (cos A, sin A)`, `A = −angle`; inside iff the quadratic form is `≤ 1` -/
-def ellipse (a b c s x y : K) : Prop :=
+@[reducible] def ellipse (a b c s x y : K) : Prop :=
   ¬ ((x * c + y * s) * (x * c + y * s) / (a * a) + (x * s - y * c) * (x * s - y * c) / (b * b) > 1)
 /-- one vane of `spider` in the vane's own frame: blocked iff `x > 0 ∧ |y| < width/2` -/
-def vane (absK : K → K) (width x y : K) : Prop := x > 0 ∧ absK y < width / 2
+@[reducible] def vane (absK : K → K) (width x y : K) : Prop := x > 0 ∧ absK y < width / 2
 
 end prims
 
